@@ -6,10 +6,12 @@ import corelib
 OBS = ["cfg"]
 GROUPS = [[(2, 1), (1, 2), (2, 3)], [(1, 1), (4, -1), (1, 5)], [(7, 1)], [],
           # a group holding a bigger inner group FOLLOWED by later-sorting siblings, and one three levels deep
-          [(1, 1), (2, -6), (3, 7), (4, 8)], [(5, 1), (1, 2), (3, 3), (2, 4), (4, 5), (6, 6)], [(2, -5), (1, 1), (9, 9)]]
+          [(1, 1), (2, -6), (3, 7), (4, 8)], [(5, 1), (1, 2), (3, 3), (2, 4), (4, 5), (6, 6)], [(2, -5), (1, 1), (9, 9)],
+          # the same sub-group (key 4, group 1) held by two different parents
+          [(4, -1)], [(4, -1), (1, 1)]]
 CTX_VALS = [[], [(1, 5)], [(1, 5), (2, 6)], [(0, 0)]]                 # [(0,0)] = a nil context
 CALL_ARGS = [[], [(1, 9)], [(2, 8), (1, 9), (2, 7)], [(3, -1)], [(5, 1), (3, -2), (51, 4)], [(3, 6), (3, -1), (1, 1)],
-             [(3, -5), (9, 1)], [(1, -7), (2, 2)], [(4, -5), (2, -5), (1, 1)]]
+             [(3, -5), (9, 1)], [(1, -7), (2, 2)], [(4, -5), (2, -5), (1, 1)], [(1, -8), (2, -9)], [(2, -8), (1, -9), (4, -1)]]
 
 
 def config(quick):
@@ -20,14 +22,15 @@ def config(quick):
     return dict(max_loggers=2, init_level=5, names=["a"], bool_lists=[[], [False]], layouts=[""],
                 opt_lists=[[], [opt("Attrs", 2, 2)], [opt("Attrs", 1, 7), opt("Attrs", 3, -2)]],
                 setter_args=sa, acts=["Set", "With", "New", "LogM", "SetAttrsR"], probe_sevs=[4], max_list=2,
-                groups=GROUPS, ctx_vals=CTX_VALS, call_args=CALL_ARGS[:4] + CALL_ARGS[6:8] if quick else CALL_ARGS)
+                groups=GROUPS, ctx_vals=CTX_VALS[:2] if quick else CTX_VALS,
+                call_args=[CALL_ARGS[i] for i in (0, 2, 3, 6, 9)] if quick else CALL_ARGS)
 
 
 def config_chain(quick):
     """Chains of three loggers: inheritance outermost first (only attribute appends and the flag)."""
     c = config(True)
     c.update(max_loggers=3, setter_args={"Attrs": [(1, 1), (2, 2)] if quick else [(1, 1), (2, 2), (3, -1)]},
-             acts=["Set", "With", "LogM", "SetAttrsR"], max_list=1, ctx_vals=CTX_VALS[:1], call_args=CALL_ARGS[:3])
+             acts=["Set", "With", "LogM", "SetAttrsR"], max_list=1, ctx_vals=[CTX_VALS[0], CTX_VALS[3]], call_args=CALL_ARGS[:3])
     return c
 
 
@@ -43,7 +46,7 @@ def rand_config(c, seed):
             lst.append((k, -rng.randint(1, 3)) if rng.random() < 0.12 else (k, rng.randint(1, 99)))
         big.append(lst)
     r["call_args"] = c["call_args"] + [x for x in CALL_ARGS if x not in c["call_args"]] + big
-    r["ctx_vals"] = CTX_VALS + [[(2, 7)], [(1, 1), (2, 2), (3, 3)]]
+    r["ctx_vals"] = c["ctx_vals"] + [x for x in CTX_VALS if x not in c["ctx_vals"]] + [[(2, 7)], [(1, 1), (2, 2), (3, 3)]]
     r["setter_args"] = {"Attrs": [(k, v) for k in (1, 2, 3, 4, 51, 52) for v in (1, 2)] + [(3, -1), (5, -2), (6, -4), (7, -5), (8, -7)],
                         "Attrs1": [(2, 3), (8, 1)], "SetKV": [(1, 4), (9, 2)], "CtxKeys": [(1, 0), (2, 0), (3, 0)],
                         "JSONMode": [(1, 0)], "ColorMode": [(1, 0), (2, 0)]}
